@@ -210,6 +210,35 @@ namespace
       }
     }
 
+    static void insert_generated_bezier(Bytes& b)
+    {
+      std::string all(b.begin(), b.end());
+      const size_t pm = all.find("<Mesh ");
+      if(pm == std::string::npos) return;
+      uint64_t s = uint64_t(sim::cfg_int("gen_bezier_seed", 0, 1 << 30)) * 0x9E3779B97F4A7C15ull + 17;
+      auto rnd = [&s](uint64_t m) { s ^= s << 13; s ^= s >> 7; s ^= s << 17; return m == 0 ? 0 : s % m; };
+      auto num = [&rnd]() { char buf[40]; snprintf(buf, sizeof(buf), "%g", double(long(rnd(129)) - 64) / 16.0); return std::string(buf); };
+      const size_t nv = 2 + size_t(rnd(6));
+      const bool closed = rnd(2) == 0, orient = rnd(3) == 0, params = rnd(2) == 0;
+      std::ostringstream os;
+      os << "<Chart name=\"gen:bezier\">\n    <Bezier dim=\"2\" size=\"" << nv << "\" type=\"" << (closed ? "closed" : "open") << "\"" << (orient ? " orientation=\"-1\"" : "") << ">\n      <Points>\n";
+      const std::string x0 = num(), y0 = num();
+      os << "        0 " << x0 << " " << y0 << "\n";
+      for(size_t i = 1; i < nv; ++i)
+      {
+        const size_t nc = size_t(rnd(5));   // 0..4 control points: degree 1..5
+        os << "        " << nc;
+        for(size_t k = 0; k < nc; ++k) os << " " << num() << " " << num();
+        if(closed && i + 1 == nv) os << " " << x0 << " " << y0 << "\n"; else os << " " << num() << " " << num() << "\n";
+      }
+      os << "      </Points>\n";
+      if(params) { os << "      <Params>\n"; for(size_t i = 0; i < nv; ++i) os << "        " << double(i) * 0.5 << "\n"; os << "      </Params>\n"; }
+      os << "    </Bezier>\n  </Chart>\n  ";
+      all.insert(pm, os.str());
+      b.assign(all.begin(), all.end());
+      sim::probe("generated_bezier_chart");
+    }
+
     static void run(const FileEntry& fe)
     {
       const std::string where = fe.name;
@@ -222,6 +251,9 @@ namespace
       // generated variants: the parameters of the analytic charts (Extrude rotation/offset/origin, Circle, Sphere) are
       // replaced by seeded legal values before the first parse - the write/parse/write fixpoint must hold for them too
       if(sim::cfg_int("vary_charts", 0, 1) == 1) vary_chart_params(b0);
+      // generated Bezier chart (2D only): segments of every degree the class supports (0..4 control points), open and closed
+      // curves, both orientations, with and without a parameter block - the shipped files only have degrees 1 and 3
+      if(dim == 2 && fe.charts.empty() && sim::cfg_int("gen_bezier", 0, 2) == 0) insert_generated_bezier(b0);
       Doc d0;
       Bytes bc = fe.charts;
       Parsed p0 = parse(b0, d0, c_r0, vary, size_t(-1), bc.empty() ? nullptr : &bc);
